@@ -14,7 +14,7 @@ import (
 const chanArr = "(Array Int Int)"
 
 func (u *Unit) chanInit(st *State, r, size Term) {
-	for _, c := range []struct{ comp, v string }{{"C_cap", size}, {"C_sent", "0"}, {"C_recvd", "0"}} {
+	for _, c := range []struct{ comp, v string }{{"C_cap", size}, {"C_sent", "0"}, {"C_recvd", "0"}, {"C_expect", "0"}} {
 		h := u.heapGet(st, c.comp, chanArr)
 		u.heapSet(st, c.comp, chanArr, fmt.Sprintf("(store %s %s %s)", h, r, c.v))
 	}
@@ -108,8 +108,30 @@ func (u *Unit) lastSent(st *State, ch Val) (Val, error) {
 	return Val{T: et, Terms: ts}, nil
 }
 
+// histVal: ghost history of received messages, one uninterpreted function per leaf.
+func (u *Unit) histVal(ch Val, k Term) (Val, error) {
+	et := chanElem(ch.T)
+	if et == nil {
+		return Val{}, fmt.Errorf("hist of non-channel")
+	}
+	ls := u.eng.leavesOf(et)
+	ts := make([]Term, len(ls))
+	for i, l := range ls {
+		fn := "hist_" + mangle(stripMod(typeKey(et))) + mangle(l.Suffix)
+		u.eng.gdecl(fn, fmt.Sprintf("(declare-fun %s (Int Int) %s)", fn, l.Sort))
+		ts[i] = fmt.Sprintf("(%s %s %s)", fn, ch.Terms[0], k)
+	}
+	return Val{T: et, Terms: ts}, nil
+}
+
 func (u *Unit) recvValue(st *State, ch Val, t types.Type) Val {
 	v := u.freshVal(st, "rcv", t)
+	// ghost history: the value received is hist(ch, recvd-before)
+	if hv, err := u.histVal(Val{T: types.NewChan(types.SendRecv, t), Terms: ch.Terms}, u.chanGet(st, "C_recvd", ch.Terms[0])); err == nil && len(hv.Terms) == len(v.Terms) {
+		for i := range v.Terms {
+			st.assume(sEq(v.Terms[i], hv.Terms[i]))
+		}
+	}
 	if ci := u.chanInvFor(t); ci != nil {
 		if tm, err := u.chanInvTerm(st, ci, v); err == nil {
 			st.assume(tm)
@@ -236,7 +258,7 @@ func (u *Unit) execGo(st *State, fr *Frame, in *ssa.Go) bool {
 		}
 	} else {
 		u.oblige(st, "nil", "fn", sNot(sEq(fv.Terms[0], "0")), pos, "go of nil function value", nil, "")
-		key := "functype::" + types.TypeString(sig, func(p *types.Package) string { return p.Name() })
+		key := sigKey(sig)
 		if cc, ok := u.eng.cs.Funcs[key]; ok {
 			c = cc
 			self := fv
@@ -259,6 +281,7 @@ func (u *Unit) execGo(st *State, fr *Frame, in *ssa.Go) bool {
 		if chv, ok := env.vars[p]; ok {
 			h := u.heapGet(st, "C_expect", chanArr)
 			u.heapSet(st, "C_expect", chanArr, fmt.Sprintf("(store %s %s (+ (select %s %s) 1))", h, chv.Terms[0], h, chv.Terms[0]))
+			st.expectChans = append(append([]Term(nil), st.expectChans...), chv.Terms[0])
 		}
 	}
 	return !st.dead
